@@ -2,6 +2,8 @@
 # usage: confirm_seed.sh <outdir> <X>   e.g. /tmp/seed/out/C10 A
 # Confirms a seeded change in a scratch worktree: demo passes on clean tree, fails with patch; touched packages' existing tests pass with patch.
 set -u
+unset GOFLAGS GOTOOLCHAIN GOSUMDB GOWORK
+export GOPROXY=off
 OUT=$1; X=$2
 ID=$(basename $OUT)
 WT=/tmp/confirm/$ID$X
@@ -29,6 +31,7 @@ PKGS=$(git diff --name-only | grep -v '^examples/' | xargs -n1 dirname | sort -u
 echo "== existing tests with patch: $PKGS ./chain/ ./vm/"
 GOPROXY=off go build ./... > $OUT/$X.build.out 2>&1; echo "build_rc=$?"
 GOPROXY=off go test -count=1 -timeout 20m $PKGS ./chain/ ./vm/ > $OUT/$X.tests_patched.out 2>&1; RC_TESTS=$?
+if [ $RC_TESTS -ne 0 ]; then echo "retrying failed packages once (suite is flaky under load)"; FAILED=$(grep -E "^FAIL\s+github" $OUT/$X.tests_patched.out | awk '{print $2}' | tr '\n' ' '); GOPROXY=off go test -count=1 -p 1 -timeout 20m $FAILED > $OUT/$X.tests_patched_retry.out 2>&1; RC_TESTS=$?; grep -E "^(ok|FAIL|---)" $OUT/$X.tests_patched_retry.out | head; fi
 grep -E "^(ok|FAIL|---|panic)" $OUT/$X.tests_patched.out | head -20; echo "rc_tests=$RC_TESTS"
 if git diff --name-only | grep -q '^examples/morpheusvm'; then
   ( cd examples/morpheusvm && GOPROXY=off go test -count=1 ./actions/... ./storage/... ./tests/integration/... ) > $OUT/$X.tests_morpheus.out 2>&1; echo "rc_morpheus=$?"
